@@ -11,11 +11,17 @@ from __future__ import annotations
 
 import gc
 import warnings
+import weakref
 from typing import List, Tuple
 
 from vlib import fakedb, framework
 from vlib.framework import Harness
 from vlib.symx import Assume, assume, native
+
+try:  # warm import: symx.native()/assume() look at the tracer state (also in tracer-less replays)
+    import crosshair.tracers  # noqa: F401
+except ImportError:
+    pass
 
 from sqlalchemy import exc as sa_exc
 from sqlalchemy import pool as sa_pool
@@ -25,7 +31,7 @@ PID = "C24"
 POOLS = ["QueuePool", "StaticPool", "SingletonThreadPool", "NullPool", "AssertionPool"]
 RESETS = ["rollback", "commit", "none"]
 
-# a session = (ending, isolation, work); code = (ending * NISO + iso) * NWORK + work
+# a session = (ending, isolation, work)
 ISOS = [None, "SERIALIZABLE", "AUTOCOMMIT"]
 WORKS = ["nothing", "insert", "begin+insert", "insert+begin_nested+insert"]
 ENDINGS = ["close", "commit+close", "exception-in-with-block", "dropped+gc", "invalidate+close", "failed-dbapi-commit+close"]
@@ -59,27 +65,30 @@ def _pick(x, lo: int, hi: int) -> int:
     return lo
 
 
-def decode(code: int) -> Tuple[int, int, int]:
-    work = code % NWORK
-    iso = (code // NWORK) % NISO
-    ending = code // (NWORK * NISO)
-    return ending, iso, work
+def table(menu: str, fc: int) -> List[Tuple[int, int, int]]:
+    """The session alphabet of a menu, ending-major: index -> (ending, isolation, work); without the
+    'failed-dbapi-commit+close' ending when ``fc == 0``."""
+    endings = [e for e in range(NEND) if fc or e != E_FAILCOMMIT]
+    return [(e, i, w) for e in endings for i in range(NISO) for w in MENU_WORKS[menu]]
 
 
-def _h_pool(n: int, pool: str, reset: str, menus: str, e0: int, codes) -> bool:
-    """``codes[i]`` encodes session i; the ending of the first session is fixed by the slice (``e0``);
-    ``menus[i]`` restricts the work shapes of session i."""
-    per_end = NISO * NWORK
-    ok = (e0 * per_end <= codes[0]) & (codes[0] < (e0 + 1) * per_end)
-    for c in codes[1:]:
-        ok = ok & (0 <= c) & (c < NEND * per_end)
+def _h_pool(n: int, pool: str, reset: str, menus: str, fc: int, e0: int, codes) -> bool:
+    """``codes[i]`` indexes ``table(menus[i], fc)``: session i.  ``fc == 0``: no session ends with a failing
+    DBAPI commit; ``fc == 1``: at least one does.  The ending of the first session is fixed by the slice if
+    ``e0 >= 0``."""
+    tables = [table(menus[i], fc) for i in range(n)]
+    per_end = NISO * len(MENU_WORKS[menus[0]])
+    lo0, hi0 = (e0 * per_end, (e0 + 1) * per_end) if e0 >= 0 else (0, len(tables[0]))
+    ok = (lo0 <= codes[0]) & (codes[0] < hi0)
+    for i in range(1, n):
+        ok = ok & (0 <= codes[i]) & (codes[i] < len(tables[i]))
     assume(ok)  # one fork for all bounds
     sessions = []
     for i in range(n):
-        c = _pick(codes[i], e0 * per_end, (e0 + 1) * per_end) if i == 0 else _pick(codes[i], 0, NEND * per_end)
-        ending, iso, work = decode(c)
-        assume(work in MENU_WORKS[menus[i]])
-        sessions.append((ending, iso, work))
+        c = _pick(codes[i], lo0, hi0) if i == 0 else _pick(codes[i], 0, len(tables[i]))
+        sessions.append(tables[i][c])
+    if fc:
+        assume(any(e == E_FAILCOMMIT for e, _, _ in sessions))
     # from here on everything is concrete: the real SQLAlchemy code runs with the tracer paused
     try:
         return native(_run_concrete, pool, reset, sessions)
@@ -88,11 +97,11 @@ def _h_pool(n: int, pool: str, reset: str, menus: str, e0: int, codes) -> bool:
 
 
 def _make(n: int):
-    def h(pool, reset, menus, e0, codes):
-        return _h_pool(n, pool, reset, menus, e0, codes)
+    def h(pool, reset, menus, fc, e0, codes):
+        return _h_pool(n, pool, reset, menus, fc, e0, codes)
 
     h.__name__ = h.__qualname__ = "h_pool_%d" % n
-    h.__annotations__ = {"pool": str, "reset": str, "menus": str, "e0": int, "codes": Tuple[(int,) * n], "return": bool}
+    h.__annotations__ = {"pool": str, "reset": str, "menus": str, "fc": int, "e0": int, "codes": Tuple[(int,) * n], "return": bool}
     return h
 
 
@@ -209,8 +218,13 @@ def _run(pool: str, reset: str, sessions) -> bool:
                 pass
             own_rollback = True
         elif ending == E_GC:
+            alive = weakref.ref(conn)
             conn = None
-            gc.collect()
+            gc.collect(0)  # gc is disabled during the history: everything allocated since is in generation 0
+            if alive() is not None:
+                gc.collect()
+            if alive() is not None:
+                _fail("harness:dropped-connection-not-collected")
         else:
             conn.close()
         conn = None
@@ -250,7 +264,9 @@ def _run(pool: str, reset: str, sessions) -> bool:
 
 META = {
     "explanation": "Real Engine/Connection and the five Pool classes over a transactional fake DBAPI, for each pool_reset_on_return; "
-                   "a symbolic history of sessions (isolation level option, shape of the work left behind, way of ending). At each "
+                   "a symbolic history of sessions (isolation level option, shape of the work left behind, way of ending): the solver "
+                   "decides every session code (binary search over z3-decided comparisons), the SQLAlchemy code then runs on the realised "
+                   "history (no symbolic value can reach it). At each "
                    "checkout the fake DBAPI connection handed out is inspected (uncommitted rows, savepoints, open transaction, "
                    "isolation level, autocommit) and the rows visible to other connections are compared with a model.",
     "functions": [
@@ -264,7 +280,7 @@ META = {
     "bounds": {
         "quick": {"sessions": "<=2 (second session: work shape 'insert+begin_nested+insert' only)", "per session": "isolation %s x work %s x ending %s" % (ISOS, WORKS, ENDINGS),
                   "pools": POOLS, "reset_on_return": RESETS},
-        "thorough": {"sessions": "<=2 full menu for every pool/reset; 3 for QueuePool and StaticPool (third session reduced)", "per session": "as quick", "pools": POOLS, "reset_on_return": RESETS},
+        "thorough": {"sessions": "<=2 full menu for every pool/reset; 3 for QueuePool, StaticPool and SingletonThreadPool (second and third session: work shape 'insert+begin_nested+insert' only)", "per session": "as quick", "pools": POOLS, "reset_on_return": RESETS},
     },
     "outside": [
         "real servers; threads; asyncio terminate path; detach(); Pool.dispose()",
@@ -280,16 +296,24 @@ META = {
 }
 
 
-def _slices(n: int, menus: str, pools=POOLS, resets=RESETS):
-    return [dict(pool=p, reset=r, menus=menus, e0=e) for p in pools for r in resets for e in range(NEND)]
+def _slices(menus: str, split: bool, pools=POOLS, resets=RESETS):
+    """Histories without a failing DBAPI commit (optionally one slice per ending of the first session) and,
+    separately, histories with at least one."""
+    out = []
+    for p in pools:
+        for r in resets:
+            for e in (range(NEND - 1) if split else (-1,)):
+                out.append(dict(pool=p, reset=r, menus=menus, fc=0, e0=e))
+            out.append(dict(pool=p, reset=r, menus=menus, fc=1, e0=-1))
+    return out
 
 
 def harnesses(tier: str) -> List[Harness]:
     q = tier == "quick"
-    per_n = {1: _slices(1, "F"), 2: _slices(2, "FR" if q else "FF")}
+    per_n = {1: _slices("F", False), 2: _slices("FR" if q else "FF", not q)}
     if not q:
-        per_n[3] = _slices(3, "FFR", pools=["QueuePool", "StaticPool"])
-    return [Harness("pool_sessions_n%d" % n, H_POOL[n], sl, budget_s=80 if q else 800) for n, sl in per_n.items()]
+        per_n[3] = _slices("FRR", True, pools=["QueuePool", "StaticPool", "SingletonThreadPool"])
+    return [Harness("pool_sessions_n%d" % n, H_POOL[n], sl, budget_s=150 if q else 800) for n, sl in per_n.items()]
 
 
 def _tag(rep) -> str:
@@ -303,8 +327,8 @@ def classify(hname, args, rep):
     tag = _tag(rep)
     exc_s = (rep or {}).get("exception") or ""
     sess = []
-    for c in args["codes"]:
-        ending, iso, work = decode(c)
+    for i, c in enumerate(args["codes"]):
+        ending, iso, work = table(args["menus"][i], args["fc"])[c]
         sess.append("%s/%s%s" % (ENDINGS[ending], WORKS[work], "/" + ISOS[iso] if iso else ""))
     desc = "%s reset_on_return=%s sessions %s" % (args["pool"], args["reset"], sess)
     if tag.startswith("checkout-after:failed-dbapi-commit+close/") and args["reset"] == "rollback" and (
